@@ -4,9 +4,13 @@
    [compile_gen fixed g inv mc init env] is the model of exec.compile
    (coq/C08/Model.v): g is the slice DAG as compile() sees it, init the tasks of
    earlier invocations that Result arguments refer to, env the CompileEnv.
-   [compile_top] is compile_gen at the current value of the switch
-   [result_shuffle_fixed] (false = the code as it is).  Every theorem below is
-   proved for both values of the switch. *)
+   [compile_top] is compile_gen at the code's configuration
+   [result_shuffle_fixed] = true, and [transported_env] the environment shipped to
+   workers at [transport_freezes_env] = true: both repairs found by this check are
+   in /repo (f1643ee, 1222816) and pinned below.  The general theorems are proved
+   for both values of [fixed]; the *_code theorems state the property for the
+   code as it is, without guards; the *_witness theorems record that the two
+   former configurations violated it. *)
 From Coq Require Import List String NArith Arith Bool ZArith.
 Import ListNotations.
 Require Import BS.C08.Model BS.C08.Ind BS.C08.Names BS.C08.Shape BS.C08.NamesInv
@@ -24,6 +28,29 @@ Proof. split; reflexivity. Qed.
 Theorem C08_gen_partitioner_literals :
   is_shuffle_literals = [0%Z] /\ num_partition_literals = [0%Z; 1%Z] /\ num_task_literals = [0%Z; 0%Z; 1%Z].
 Proof. repeat split; reflexivity. Qed.
+
+(* the repaired sites: the re-shuffle Task literal over a Result (the first Task
+   literal of compile) sets the partitioning fields like the pipeline Task literal
+   does; addInvocation freezes the environment it stores for transport *)
+Theorem C08_gen_task_literals :
+  compile_task_literals =
+  [["Type"; "Invocation"; "Name"; "Do"; "Deps"; "Pragma"; "Slices";
+    "NumPartition"; "Partitioner"; "Combiner"; "CombineKey"];
+   ["Type"; "Name"; "Invocation"; "Pragma"; "NumPartition"; "Partitioner"; "Combiner"; "CombineKey"]]%string.
+Proof. reflexivity. Qed.
+Theorem C08_gen_reshuffle_task_partitioned :
+  forallb (fun f => existsb (String.eqb f) (hd [] compile_task_literals))
+          ["NumPartition"; "Partitioner"; "Combiner"; "CombineKey"]%string = true.
+Proof. reflexivity. Qed.
+Theorem C08_gen_transport_freezes :
+  existsb (String.eqb "inv.Env.Freeze"%string) add_invocation_calls = true.
+Proof. reflexivity. Qed.
+
+(* ---- the model's configuration is the repaired code ---- *)
+Theorem C08_code_result_shuffle_fixed : result_shuffle_fixed = true.
+Proof. exact code_result_shuffle_fixed. Qed.
+Theorem C08_code_transport_freezes : transport_freezes_env = true.
+Proof. exact code_transport_freezes. Qed.
 
 (* ---- the fuel (DAG size + 1) always suffices ---- *)
 Theorem C08_fuel_suffices : forall g inv mc fixed, wf_dag g ->
@@ -118,8 +145,8 @@ Theorem C08_no_pipeline_across : forall g inv mc fixed init env st roots,
 Proof. exact no_pipeline_across. Qed.
 Print Assumptions C08_no_pipeline_across.
 
-(* ---- shuffle_wiring: for all DAGs when the Result re-shuffle is fixed, and for
-        every dependency whose producer is not a Result otherwise ---- *)
+(* ---- shuffle_wiring, general form: for both configurations; in the former one
+        only for dependencies whose producer is not a Result ---- *)
 Theorem C08_shuffle_wiring : forall g inv mc fixed init env st roots,
   wf_dag g -> wf_init g init -> compile_gen fixed g inv mc init env = COk st roots ->
   forall id t, List.length init <= id -> nth_error (sstore st) id = Some t ->
@@ -148,21 +175,36 @@ Theorem C08_narrow_wiring : forall g inv fixed init st t i,
      end.
 Proof. exact narrow_wiring. Qed.
 
-(* DEFECT (compile.go:245-258): with the code as it is, a shuffle whose producer
-   is a Result is not wired as demanded: the inserted re-shuffle tasks declare
-   NumPartition = 0 and no partitioner. *)
-Theorem C08_result_shuffle_refuted :
-  result_shuffle_fixed = false /\
+(* ---- shuffle_wiring for the code as it is: every shuffle dependency of every
+        new pipeline task, Result producers included ---- *)
+Theorem C08_shuffle_wiring_code : forall g inv mc init env st roots,
+  wf_dag g -> wf_init g init -> compile_top g inv mc init env = COk st roots ->
+  forall id t, List.length init <= id -> nth_error (sstore st) id = Some t ->
+    reshuffle_task init t
+    \/ exists i, nresult (get_node g i) = None /\ pipeline (S (List.length g)) g i = Some (tslices t)
+         /\ (tdeps t = []
+             \/ (List.length (tdeps t) = List.length (ndeps (get_node g (last (tslices t) i)))
+                 /\ forall j d td,
+                      nth_error (ndeps (get_node g (last (tslices t) i))) j = Some d ->
+                      nth_error (tdeps t) j = Some td -> dshuffle d = true ->
+                      wired_shuffle g inv init (sstore st) t (get_node g (last (tslices t) i)) d td)).
+Proof. exact shuffle_wiring_code. Qed.
+Print Assumptions C08_shuffle_wiring_code.
+
+(* WITNESS about the former configuration (compile_gen false = compile.go before
+   f1643ee): a shuffle whose producer is a Result was not wired as demanded; the
+   inserted re-shuffle tasks declared NumPartition = 0 and no partitioner. *)
+Theorem C08_result_shuffle_unfixed_witness :
   exists st roots,
-    compile_top g_reshuffle_result 2%N false init_result empty_env = COk st roots
+    compile_gen false g_reshuffle_result 2%N false init_result empty_env = COk st roots
     /\ exists t td m u,
          nth_error (sstore st) (nth 1 roots 0) = Some t /\ In td (tdeps t)
          /\ dpart td = 1
          /\ In m (members (sstore st) td) /\ nth_error (sstore st) m = Some u
          /\ top u = "inv1_const_shuffle"%string
          /\ tnumpart u = 0 /\ tnumpart u <> tnshard t /\ tpart u = 0.
-Proof. exact result_shuffle_refuted. Qed.
-Print Assumptions C08_result_shuffle_refuted.
+Proof. exact result_shuffle_unfixed_witness. Qed.
+Print Assumptions C08_result_shuffle_unfixed_witness.
 
 (* ---- compile_env_frozen: with a frozen CompileEnv the graph does not depend
         on the compiling process's own view of the caches ---- *)
@@ -184,28 +226,29 @@ Theorem C08_driver_frozen_agree : forall g g' inv mc fixed init env st roots,
 Proof. exact driver_frozen_agree. Qed.
 Print Assumptions C08_driver_frozen_agree.
 
-(* and it is what workers would get if the shipped environment were frozen *)
-Theorem C08_worker_agrees_when_transport_freezes : forall g g' inv mc init st roots,
-  transport_freezes_env = true ->
+(* ---- the same graph everywhere, for the code as it is: a worker compiling from
+        the transported invocation, whatever its caches contain, gets exactly the
+        driver's tasks and roots ---- *)
+Theorem C08_worker_graph_is_driver_graph : forall g g' inv mc init st roots,
   wf_dag g -> (forall i, clean (nop (get_node g i))) -> same_but_cache g g' ->
   compile_top g inv mc init empty_env = COk st roots ->
   compile_top g' inv mc init (transported_env empty_env (senv st))
   = COk (mkSt (sstore st) (snamer st) (smemo st) (freeze (senv st))) roots.
-Proof. exact worker_agrees_when_transport_freezes. Qed.
+Proof. exact worker_graph_is_driver_graph. Qed.
+Print Assumptions C08_worker_graph_is_driver_graph.
 
-(* DEFECT (session.go:299-305, bigmachine.go:208-235): the environment shipped to
-   workers is task.Invocation.Env, copied before the session froze its own copy;
-   it is still writable, so a worker whose caches have filled since compiles a
-   different graph. *)
-Theorem C08_worker_env_refuted :
-  transport_freezes_env = false /\
+(* WITNESS about the former configuration (transported_env_gen false =
+   addInvocation before 1222816): the environment shipped to workers was
+   task.Invocation.Env, copied before the session froze its own copy and still
+   writable, so a worker whose caches had filled since compiled a different graph. *)
+Theorem C08_worker_env_unfrozen_witness :
   exists driver roots worker roots',
     compile_top (g_cache [false; false]) 1%N false [] empty_env = COk driver roots
     /\ compile_top (g_cache [false; true]) 1%N false []
-                   (transported_env empty_env (senv driver)) = COk worker roots'
+                   (transported_env_gen false empty_env (senv driver)) = COk worker roots'
     /\ map tdeps (sstore driver) <> map tdeps (sstore worker).
-Proof. exact worker_env_refuted. Qed.
-Print Assumptions C08_worker_env_refuted.
+Proof. exact worker_env_unfrozen_witness. Qed.
+Print Assumptions C08_worker_env_unfrozen_witness.
 
 (* ---- non-vacuity ---- *)
 Theorem C08_example_reduce :
